@@ -1296,6 +1296,8 @@ def underkeyed_memos(funcs):
                               isinstance(x.comparators[0], ast.Name) and x.comparators[0].id == c_ and ast.dump(x.left) == kt)]
                     if not reads:
                         continue
+                    if any(isinstance(x, ast.Name) and x.id == c_ for a in list(st.value.args) + [k.value for k in st.value.keywords] for x in ast.walk(a)):
+                        continue            # C[k] = op(C[k], v): an accumulator folds the varying value in, it does not remember a result
                     n += 1
                     knames = set(x.id for x in ast.walk(t.slice) if isinstance(x, ast.Name))
                     anames = set(x.id for a in list(st.value.args) + [k.value for k in st.value.keywords] for x in ast.walk(a) if isinstance(x, ast.Name))
